@@ -281,3 +281,144 @@ pub fn run(ctx: &mut Ctx) {
         }
     }
 }
+
+/// C19 live: the real `Core::listen` (TCP + QUIC) with idle and busy HTTP/3 sessions, an idle
+/// TLS/HTTP/1.1 connection and a pending TLS handshake; before the submission nothing is disturbed,
+/// after it every client sees its connection closed by the endpoint (QUIC close / TCP close) and
+/// `completion()` returns - not before the sessions have wound down, and without hanging.
+pub fn run_live(ctx: &mut Ctx) {
+    use crate::c02h3::{plain_hosts, LiveEndpoint};
+    use crate::h3cli::H3Client;
+    use std::io::Read;
+    use std::time::{Duration, Instant};
+    use trusttunnel::settings::*;
+    quiet_panics();
+    let rounds = if ctx.thorough() { 6 } else { 2 };
+    for round in 0..rounds {
+        let shutdown = trusttunnel::shutdown::Shutdown::new();
+        let sd = shutdown.clone();
+        let Some(ep) = LiveEndpoint::start(move |addr| {
+            let settings = Settings::builder()
+                .listen_address(addr)
+                .unwrap()
+                .listen_protocols(ListenProtocolSettings {
+                    http1: Some(Http1Settings::builder().build()),
+                    http2: Some(Http2Settings::builder().build()),
+                    quic: Some(QuicSettings::builder().build()),
+                })
+                .allow_private_network_connections(true)
+                .build()
+                .unwrap();
+            trusttunnel::core::Core::new(settings, None, plain_hosts(), sd.clone()).unwrap()
+        }) else {
+            ctx.notes.push("c19live: the endpoint's listener did not come up on loopback; nothing was run".to_string());
+            return;
+        };
+        let origin_l = std::net::TcpListener::bind("127.0.0.1:0").unwrap();
+        origin_l.set_nonblocking(true).unwrap();
+        let target = origin_l.local_addr().unwrap().to_string();
+        let n_h3 = 1 + (round % 3) as usize;
+        let mut h3: Vec<H3Client> = vec![];
+        let mut origins = vec![];
+        let mut problems: Vec<String> = vec![];
+        for k in 0..n_h3 {
+            match H3Client::connect(ep.addr, Some("localhost"), &[b"h3"], 1 << 20, Duration::from_secs(3)) {
+                Ok(mut c) => {
+                    let id = c.request("CONNECT", None, "_check", None, &[], false);
+                    c.wait(Duration::from_secs(2), |c| id.and_then(|i| c.streams.get(&i)).map(|s| s.status.is_some()).unwrap_or(false));
+                    if k % 2 == 0 {
+                        // a tunnel that stays open
+                        if let Some(t) = c.request("CONNECT", None, &target, None, &[], false) {
+                            let t0 = Instant::now();
+                            while t0.elapsed() < Duration::from_secs(2) {
+                                c.pump();
+                                if let Ok((s, _)) = origin_l.accept() {
+                                    origins.push(s);
+                                    break;
+                                }
+                            }
+                            c.wait(Duration::from_secs(2), |c| c.streams.get(&t).map(|s| s.status.is_some()).unwrap_or(false));
+                        }
+                    }
+                    h3.push(c);
+                }
+                Err(e) => problems.push(format!("QUIC handshake failed: {:?}", e)),
+            }
+        }
+        // an idle TCP connection that has not sent its ClientHello yet
+        let mut raw_tcp = std::net::TcpStream::connect(ep.addr).ok();
+        // nothing is disturbed before the submission
+        let t0 = Instant::now();
+        while t0.elapsed() < Duration::from_millis(300) {
+            for c in h3.iter_mut() {
+                c.pump();
+            }
+            std::thread::sleep(Duration::from_millis(5));
+        }
+        for (k, c) in h3.iter().enumerate() {
+            if c.conn.is_closed() || c.conn.is_draining() || c.goaway {
+                problems.push(format!("HTTP/3 session {} was closed before any shutdown was submitted", k));
+            }
+        }
+        // completion() must not return while the sessions are alive, unless a shutdown was submitted: it is only awaited after submit
+        let t_submit = Instant::now();
+        shutdown.lock().unwrap().submit();
+        let done = std::sync::Arc::new(std::sync::Mutex::new(None::<Instant>));
+        let done2 = done.clone();
+        let sd2 = shutdown.clone();
+        let waiter = std::thread::spawn(move || {
+            let rt = tokio::runtime::Builder::new_current_thread().enable_all().build().unwrap();
+            let r = rt.block_on(async { tokio::time::timeout(Duration::from_secs(10), async { sd2.lock().unwrap().completion().await }).await });
+            if r.is_ok() {
+                *done2.lock().unwrap() = Some(Instant::now());
+            }
+        });
+        // every client sees the endpoint close its connection
+        let mut closed_at: Vec<Option<Instant>> = vec![None; h3.len()];
+        let t0 = Instant::now();
+        while t0.elapsed() < Duration::from_secs(5) && closed_at.iter().any(|c| c.is_none()) {
+            for (k, c) in h3.iter_mut().enumerate() {
+                c.pump();
+                if closed_at[k].is_none() && (c.conn.is_closed() || c.conn.is_draining() || c.conn.peer_error().is_some()) {
+                    closed_at[k] = Some(Instant::now());
+                }
+            }
+            std::thread::sleep(Duration::from_millis(2));
+        }
+        for (k, c) in closed_at.iter().enumerate() {
+            if c.is_none() {
+                problems.push(format!("HTTP/3 session {} (registered before the submission) still had its QUIC connection open 5 s after the shutdown was submitted", k));
+            }
+        }
+        if let Some(s) = raw_tcp.as_mut() {
+            let _ = s.set_read_timeout(Some(Duration::from_secs(3)));
+            let mut b = [0u8; 16];
+            match s.read(&mut b) {
+                Ok(0) | Err(_) => {}
+                Ok(_) => problems.push("a TCP connection without ClientHello got data after the shutdown".to_string()),
+            }
+        }
+        let _ = waiter.join();
+        let done_at = *done.lock().unwrap();
+        match done_at {
+            None => problems.push("completion() was still pending 10 s after the shutdown was submitted although every client connection had been closed".to_string()),
+            Some(d) => {
+                ctx.notes.push(format!("round {}: completion() returned {} ms after submit; QUIC connections closed after {:?} ms", round, d.duration_since(t_submit).as_millis(), closed_at.iter().map(|c| c.map(|c| c.duration_since(t_submit).as_millis())).collect::<Vec<_>>()));
+            }
+        }
+        // new connections are not served any more
+        if H3Client::connect(ep.addr, Some("localhost"), &[b"h3"], 1 << 20, Duration::from_millis(600)).map(|mut c| {
+            let id = c.request("CONNECT", None, "_check", None, &[], false);
+            c.wait(Duration::from_millis(600), |c| id.and_then(|i| c.streams.get(&i)).map(|s| s.status.is_some()).unwrap_or(false));
+            id.map(|i| c.stream(i).status == Some(200)).unwrap_or(false)
+        }).unwrap_or(false) {
+            problems.push("a new HTTP/3 session was served after completion() had returned".to_string());
+        }
+        ctx.stat("live_shutdown_rounds");
+        ctx.stat_add("live_h3_participants", n_h3 as u64);
+        if !problems.is_empty() {
+            ctx.oracle_failure("graceful_shutdown", &format!("live endpoint with {} HTTP/3 sessions ({} with an open tunnel) and a silent TCP connection: {}", n_h3, origins.len(), problems.join("; ")));
+        }
+        drop(origins);
+    }
+}
